@@ -254,7 +254,11 @@ impl Observer for ErrObs {
 const MESSAGES: [&str; 9] = ["m1", "two words", "oops7", "a-b_c", "\\${x0}", "say \\\"hi\\\"", "a#b", "ends with a line break\\n", "tail\\r\\n"];
 
 fn raw_line(rng: &mut Rng, n_arrays: usize) -> String {
-    let msg = {
+    let msg = if rng.chance(1, 16) {
+        // a message longer than any plausible fixed buffer (1 000 - 3 500 characters; one in four 70 000)
+        let n = if rng.chance(1, 4) { 7_000 } else { 100 + rng.usize(250) };
+        format!("L{}", "0123456789".repeat(n))
+    } else {
         let m = *rng.pick(&MESSAGES);
         if m.contains(' ') || m.contains('#') || m.contains('"') || m.contains('\\') { format!("\"{}\"", m) } else { m.to_string() }
     };
